@@ -116,7 +116,7 @@ func tokenize(s string) ([]token, error) {
 		case unicode.IsLetter(c) || c == '_':
 			bt, bl := readBareword(s[i:])
 			tnr := tBare
-			if n, ok := keywords[strings.ToUpper(bt)]; ok {
+			if n, ok := keywords[asciiUpper(bt)]; ok {
 				tnr = n
 			}
 			res = append(res, stoken(tnr, bt))
@@ -164,6 +164,16 @@ func tokenize(s string) ([]token, error) {
 		}
 		i += l
 	}
+}
+
+// keywords are ASCII; a word like "ſet" is an identifier, not SET
+func asciiUpper(s string) string {
+	return strings.Map(func(r rune) rune {
+		if r >= 'a' && r <= 'z' {
+			return r - 'a' + 'A'
+		}
+		return r
+	}, s)
 }
 
 func readBareword(s string) (string, int) {
